@@ -111,7 +111,7 @@ CHECKS.update({
         note='NOT decided: termination when re-splitting does not shrink (C20); time.'),
     'C15': dict(
         technique='edge-dominance capacity gate on every bucket write, dominance of the worklist drain over the metadata put, formula/loop rules for the tree count',
-        text='fit_in_descendant is n <= split_after.unwrap_or(dimensions); every bucket write is under it, or queued for re-splitting, or a shrunk copy, or in a function only called under it; worklist drained before metadata; explicit Some(n) used unchanged, surplus roots removed with their trees deleted, exactly target - roots.len() roots created; the forest / staleness premises (C01, C06 rule sets) are re-evaluated. A merged bucket (union of two sub-trees) is never a shrunk copy; every id put on a worklist parameter is the id of a bucket written there.',
+        text='fit_in_descendant is n <= split_after.unwrap_or(dimensions); every bucket write is under it, or queued for re-splitting, or a shrunk copy, or in a function only called under it; worklist drained before metadata; explicit Some(n) used unchanged, surplus roots removed with their trees deleted, exactly target - roots.len() roots created; the forest / staleness premises (C01, C06 rule sets) are re-evaluated. A merged bucket (union of two sub-trees) is never a shrunk copy; every id put on a worklist parameter is the id of a bucket written there. The automatic tree count is bounded below by 1 (interval evaluation of the automatic arm; the pinned tree returned 0 for one-dimensional indexes -- repaired by a fix: commit).',
         design='DESIGN.md §4 C15',
         note='NOT decided: arithmetic of the automatic tree count (0 for dimensions = 1 -- observed, value-level, never reported); numeric equality roots.len() == n.'),
     'C20': dict(
